@@ -371,6 +371,8 @@ def localdate_error(R, lib, ob):
                         got = bool(AEval(module=mod, typed=True, max_steps=5000).call_function(f.name, [], recv=o, chosen=CxxModule._Fn(f)))
                     except Raised as x_:
                         got = 'raises %s' % x_.what
+                    except IndexError as x_:
+                        got = 'reads outside a constant table (%s)' % x_
                     n += 1
                     must_err = y == inv or not 1 <= m <= 12 or not 1 <= d <= 31
                     valid = not must_err and d <= calendar.monthrange(2000 + y, m)[1]
